@@ -62,6 +62,9 @@ ANCHORS = [
     ("daily", "dev_nosmooth", _b("daily", 123, tz="US/Pacific")),
     ("hourly", "seed1", _b("hourly", 112, norm=1)),
     ("daily", "default", _b("daily", 118, norm=1)),
+    # the shipped samples share one weather series: meters that agree on everything but their usage
+    ("daily", "default", _b("daily", 1, src="sample")),
+    ("daily", "default", _b("daily", 2, src="sample")),
 ]
 
 
